@@ -5,7 +5,26 @@ import json, subprocess
 ALL = ["C%02d" % i for i in range(1, 21)]
 
 # id -> (technique, level text, level note, design ref)
+TB = "Trusted: the reference models under /verif/mc/ref (independent of the code under test), the harness request builder (fx), Go's crypto; bounds as stated in the evidence file."
 CLAIMED = {
+ "C01": ("explicit-state search over (legitimate chain, unauthorised multiset, anchoring slots, store order) on the real processor; metamorphic oracle result(L+X)=result(L)",
+         "All 22 legitimate chains x every single unauthorised operation / duplicate create (59 per key type: forged signature, tampered payload, wrong signer, wrong key revealed, alg swap, zero/short/long signature, suffix swap) at every anchoring slot x 2 store orders for all 5 key types, plus all pairs (thorough: triples) on 4 representative slots for Ed25519; resolution must be unchanged. Exhaustive within that space.",
+         TB, "DESIGN.md §3 C01"),
+ "C02": ("explicit enumeration of all store-order permutations x all injective (time,number) assignments for every competition shape, on the real processor, vs reference ordering",
+         "19 (thorough 25) competition shapes (forks, several creates, deactivate vs recover, replays, published/unpublished twins) x every injective coordinate assignment from a 3x3 / 2x3 grid incl. non-monotone numbers x every permutation of the store's return order x both arrival paths of unpublished operations; every permutation must equal ref/sidetree ordered by (time, number), published first; metadata operation lists must be in that order.",
+         TB, "DESIGN.md §3 C02"),
+ "C04": ("explicit-state search: every reachable deactivated / recovered state of the real processor extended by every later operation (pairs), differential between states; real DocumentHandler driven per state",
+         "All histories of <=3 operations after the create over a 14-operation chain alphabet; the ~1.2k that resolve as deactivated are extended by every single pool operation (97, published and unpublished) and pairs; a real DocumentHandler with its default decorator must refuse all non-create requests; for ~1.4k recover states every subset of updates anchored at/before the recover is removed and must not matter.",
+         TB, "DESIGN.md §3 C04"),
+ "C05": ("bounded-exhaustive boundary enumeration x independent configuration variation on the real applier/parser vs an independent window predicate",
+         "Every (anchorFrom, anchorUntil) in {0,T-1,T,T+1,T+5}^2 plus the T-delta-1..T-delta+1 defaults x {update, recover, deactivate} x 38 protocol configurations in which the time delta (7, 300) varies independently of 9 other parameters; effect through the real processor and intake through the real parser with a spy time validator; outcome must depend on the delta only.",
+         TB, "DESIGN.md §3 C05"),
+ "C06": ("explicit-state search over histories x all cut points (times, version ids) x later extensions; metamorphic oracle against the truncated history on the real processor plus the reference model",
+         "All histories of <=3 (thorough 4) operations over a 14-operation alphabet on 5 non-monotone coordinates, published and unpublished, x every cut time from pre-epoch to maxTime+1 x every version id (and an unknown one) x 5 later-anchored extensions.",
+         TB, "DESIGN.md §3 C06"),
+ "C12": ("bounded-exhaustive pairing enumeration at intake; explicit-state search over commitment-cycle histories on the real processor vs reference",
+         "Every (revealed key, next commitment) pairing x both hash algorithms (also mixed) x 5 key types for update/recover and every (update, recovery) commitment pairing for create/recover through the real parser; every forward chain of length <=4 (update and recovery chains) plus 1-2 cycle-closing operations (self loops, cycles of length 2..4) at every anchoring position, with and without the legitimate continuation.",
+         TB, "DESIGN.md §3 C12"),
  "C03": ("explicit-state search over anchored-operation sets on the real processor, lock-step with a reference state machine",
          "Every set of <=3 (thorough: <=4) anchored pool operations (valid, forked, failing-delta, out-of-window, replayed, cyclic, forged; all key types, both hash algorithms, published/unpublished) is resolved by the real processor/applier/parser/composer and compared field by field with the ref/sidetree reference; plus 40-long chains with cycle-closing competitors. Exhaustive within the stated alphabet and depth.",
          "Trusted: ref/sidetree, ref/doc, ref/jcs (independent of the code under test); harness-built requests; bounds as stated in evidence.",
